@@ -669,12 +669,14 @@ def fut_configs():
 
 
 def mem_configs():
-    def c(name, th, maxobj, maxops, late="FALSE", skip="FALSE", atonce="FALSE", append="FALSE", expect=False,
-          thorough_only=False):
+    def c(name, th, maxobj, maxops, late="FALSE", skip="FALSE", atonce="FALSE", append="FALSE", tokenless="FALSE",
+          expect=False, thorough_only=False):
         return {"name": name,
                 "constants": {"Handles": "{1,2,3}", "Churners": "{1,2}", "TH": th, "MaxObj": maxobj, "MaxOps": maxops,
-                              "AnnounceLate": late, "SkipOneToken": skip, "FreeAtOnce": atonce, "AppendPending": append},
-                "invariants": ["NoUseAfterFree", "PublishedAlive", "NoDoubleRetire", "ReleaseAfterBump"], "expect": expect,
+                              "AnnounceLate": late, "SkipOneToken": skip, "FreeAtOnce": atonce, "AppendPending": append,
+                              "TokenlessSwap": tokenless},
+                "invariants": ["NoUseAfterFree", "PublishedAlive", "NoDoubleRetire", "ReleaseAfterBump"] +
+                              ([] if tokenless == "TRUE" else ["HoldersHaveTokens"]), "expect": expect,
                 "thorough_only": thorough_only, "workers": 8}
     return [
         c("th1", 1, 4, 3),
@@ -684,6 +686,7 @@ def mem_configs():
         c("mut_skip_token", 1, 4, 3, skip="TRUE", expect=True),
         c("mut_free_at_once", 1, 4, 3, atonce="TRUE", expect=True),
         c("mut_append_pending", 1, 5, 3, append="TRUE", expect=True),
+        c("mut_tokenless_swap", 1, 5, 3, tokenless="TRUE", expect=True),
     ]
 
 
